@@ -552,6 +552,25 @@ def check_parse_numbers(ctx):
     ar = [e for e in trace.calls(tr, "numpy.arange")]
     gd_calls = [e for e in trace.calls(tr, "verif.util.get_date")]
     ctx.need(len(singles) >= 2 and len(ar) >= 2 and len(gd_calls) >= 2, "%s: append/arange/get_date events of two comma groups not found" % site)
+    # termination of the date loop (ranking argument): `date = get_date(date, step)` moves forward only if step >= 1 day; the loop
+    # runs `while date <= max(start, end)`, so with a step below one day (0.5 is truncated to 0 days, -1 walks backwards) it never
+    # ends or leaves the calendar - such a step has to be rejected on every path that reaches the loop
+    for e in gd_calls:
+        if len(e["args"]) < 2 or not isinstance(e["args"][1], Rat) or not e.get("loops"):
+            continue
+        stepv = e["args"][1]
+        if stepv.const_value() is not None:
+            ok = stepv.const_value() >= 1
+        else:
+            try:
+                ok = boolq.implies(boolq.conj(e["conds"]), ("not", boolq.prop(form.apply("cmp_lt", [stepv, Rat.const(1)]))))
+            except boolq.TooBig:
+                ok = False
+        ctx.ob("C13.3", site, ok, "date ranges: a step below one day is rejected before the stepping loop (the loop terminates)", loc=prog.loc(m, e["node"]),
+               msg="the date loop `while date <= max(start, end): date = get_date(date, step)` is entered with any non-zero step: for a step "
+                   "below one day (e.g. -d 20120101:0.5:20120103, truncated to 0 days) it never terminates, for a negative step it walks backwards "
+                   "until datetime raises - neither an error message nor a result",
+               expected="step >= 1 on every path into the loop", found=[(c.key()[:80], p) for c, p in e["conds"] if isinstance(c, Rat)][-4:])
 
     def pieces_of(e):
         a0 = e["args"][0].as_atom() if isinstance(e["args"][0], Rat) else None
